@@ -386,7 +386,8 @@ def plan_C10(tier, seed, q):
                     "client reader and the server handler blocked in ReadMessage, optionally with messages in flight, then one event from {client closes one "
                     "stream, Conn.Close, cut of either direction (reset/EOF/custom) a few bytes ahead, Server.Close}; at quiescence (virtual time) every "
                     "affected blocked ReadMessage has returned ErrStreamShutdown, the handler has returned, later Read/WriteMessage return "
-                    "ErrStreamShutdown in zero time, and after closing one stream its siblings still echo and a unary call still works; plus the stream "
+                    "ErrStreamShutdown in zero time, and after closing one stream its siblings still echo and a unary call still works; in half of the close-one-stream "
+                    "scenarios a 30-virtual-second unary handler runs on the connection and the closed stream's handler must exit before it does; plus the stream "
                     "operations of the cut engine's byte-offset enumeration; plus engine 'pollstream' on real TCP/UNIX sockets against poll-mode servers "
                     "(handler must exit after the client disconnects, judged by the responsiveness-relative rule); distinct = distinct scenario parameters",
             "jobs": jobs, "min_evaluations": 300, "min_distinct": 100, "parallel": 14,
